@@ -178,13 +178,15 @@ package godi
 //@        && idOf(descriptor, callarg("scope.setInstance", 0, 2, "instanceKey")) && callarg("scope.setInstance", 0, 3) == instance
 //@   ensures[C01,C02,C04] every_alias_gets_the_same_instance: forall c int :: 0 <= c && c < ncalls("scope.cacheInstance") ==> callarg("scope.cacheInstance", c, 0) == s && callarg("scope.cacheInstance", c, 3) == instance
 //@        && idOf(callarg("scope.cacheInstance", c, 1, "*Descriptor"), callarg("scope.cacheInstance", c, 2, "instanceKey"))
-//@   ensures[C01,C02,C04] no_alias_skipped: forall i int :: 0 <= i && i < len(descriptor.outputs) && descriptor.outputs[i] != nil && descriptor.outputs[i] != descriptor ==>
+//@   ensures[C17,C04] removed_aliases_are_not_stored: forall c int :: 0 <= c && c < ncalls("scope.cacheInstance") ==> pure("provider.isRegistered", old(s.rootProvider), callarg("scope.cacheInstance", c, 1, "*Descriptor"))
+//@   ensures[C01,C02,C04] no_alias_skipped: forall i int :: 0 <= i && i < len(descriptor.outputs) && !outputSkipped(old(s.rootProvider), descriptor, descriptor.outputs[i]) && descriptor.outputs[i] != nil && descriptor.outputs[i] != descriptor ==>
 //@        (exists c int :: 0 <= c && c < ncalls("scope.cacheInstance") && callarg("scope.cacheInstance", c, 1, "*Descriptor") == descriptor.outputs[i])
 //@   loop 1
 //@     invariant stored_first: ncalls("scope.setInstance") == 1 && s != nil && s.rootProvider != nil
 //@     invariant aliases_so_far: forall c int :: 0 <= c && c < ncalls("scope.cacheInstance") ==> callarg("scope.cacheInstance", c, 0) == s && callarg("scope.cacheInstance", c, 3) == instance
 //@        && idOf(callarg("scope.cacheInstance", c, 1, "*Descriptor"), callarg("scope.cacheInstance", c, 2, "instanceKey"))
-//@     invariant none_skipped_so_far: forall i int :: 0 <= i && i < idx && descriptor.outputs[i] != nil && descriptor.outputs[i] != descriptor ==>
+//@     invariant registered_only: forall c int :: 0 <= c && c < ncalls("scope.cacheInstance") ==> pure("provider.isRegistered", s.rootProvider, callarg("scope.cacheInstance", c, 1, "*Descriptor"))
+//@     invariant none_skipped_so_far: forall i int :: 0 <= i && i < idx && !outputSkipped(s.rootProvider, descriptor, descriptor.outputs[i]) && descriptor.outputs[i] != nil && descriptor.outputs[i] != descriptor ==>
 //@        (exists c int :: 0 <= c && c < ncalls("scope.cacheInstance") && callarg("scope.cacheInstance", c, 1, "*Descriptor") == descriptor.outputs[i])
 //
 //@ func closeLate
@@ -312,6 +314,16 @@ package godi
 //
 // the cache key under which an instance is stored is the identity of the registration it is stored for
 //@ pred idOf(d *Descriptor, k instanceKey) = d != nil && k == mk("instanceKey", d.Type, d.Key, d.Group)
+// read-only helpers over immutable registration data (the provider's tables are never written after Build, the output
+// links of a descriptor never after registration): deterministic functions of their arguments
+//@ func Descriptor.outputForField
+//@   pure
+//@ func Descriptor.outputForReturn
+//@   pure
+//@ func provider.isRegistered
+//@   pure
+// an output is skipped exactly when the same Add call registered a descriptor for it and that descriptor is no longer in the provider's tables
+//@ pred outputSkipped(p *provider, self *Descriptor, out *Descriptor) = out != nil && out != self && !pure("provider.isRegistered", p, out)
 //@ func scope.createInstance
 //@   mode conc
 //@   interferes
@@ -338,6 +350,7 @@ package godi
 //@        ncalls("scope.setInstance") == 0 && ncalls("scope.setAliasedInstance") == 0 && ncalls("reflection.ConstructorInvoker.Invoke") == 0 && typeis(result1, "*ReflectionAnalysisError")
 //@        && as(result1, "*ReflectionAnalysisError").Cause == callret("reflection.Analyzer.Analyze", 0, 1)
 //@   ensures[C04,C02,C01] every_output_is_cached_under_its_registration_identity: forall c int :: 0 <= c && c < ncalls("scope.setInstance") ==> idOf(callarg("scope.setInstance", c, 1, "*Descriptor"), callarg("scope.setInstance", c, 2, "instanceKey"))
+//@   ensures[C17,C04] removed_outputs_are_not_stored: forall c int :: 0 <= c && c < ncalls("scope.setInstance") ==> !outputSkipped(old(s.rootProvider), descriptor, callarg("scope.setInstance", c, 1, "*Descriptor"))
 //@   ensures[C10,C01] every_store_is_for_this_scope: (forall i int :: 0 <= i && i < ncalls("scope.setInstance") ==> callarg("scope.setInstance", i, 0) == s)
 //@        && (forall i int :: 0 <= i && i < ncalls("scope.setAliasedInstance") ==> callarg("scope.setAliasedInstance", i, 0) == s) && ncalls("scope.setAliasedInstance") <= 1
 //@   at before return#2 : assert[C15] nil_instance_stores_nothing: ncalls("scope.setInstance") == 0 && ncalls("scope.setAliasedInstance") == 0
@@ -348,22 +361,24 @@ package godi
 //@   at before return#7 : assert[C10,C02] void_marker_stored_once: ncalls("scope.setInstance") == 1 && callarg("scope.setInstance", 0, 1) == descriptor
 //@   at before return#8 : assert[C15] no_results_stores_nothing: ncalls("scope.setInstance") == 0 && ncalls("scope.setAliasedInstance") == 0
 //@   at before return#9 : assert[C15] bad_result_object_stores_nothing: ncalls("scope.setInstance") == 0 && ncalls("scope.setAliasedInstance") == 0
-//@   at before return#12 : assert[C10,C01] every_result_field_stored: ncalls("scope.setInstance") == len(registrations)
-//@        && (forall i int :: 0 <= i && i < len(registrations) ==> callarg("scope.setInstance", i, 3) == registrations[i].Value)
-//@   at before return#14 : assert[C10,C01] every_return_value_stored: forall j int :: 0 <= j && j < len(info.Returns) && !info.Returns[j].IsError ==>
+//@   at before return#12 : assert[C10,C01] stored_values_are_result_fields: ncalls("scope.setInstance") <= len(registrations)
+//@        && (forall c int :: 0 <= c && c < ncalls("scope.setInstance") ==> (exists i int :: 0 <= i && i < len(registrations) && callarg("scope.setInstance", c, 3) == registrations[i].Value))
+//@   at before return#14 : assert[C10,C01] every_return_value_stored: forall j int :: 0 <= j && j < len(info.Returns) && !info.Returns[j].IsError && pure("Descriptor.outputForReturn", descriptor, info.Returns[j].Index) != nil && !outputSkipped(s.rootProvider, descriptor, pure("Descriptor.outputForReturn", descriptor, info.Returns[j].Index)) ==>
 //@        (exists c int :: 0 <= c && c < ncalls("scope.setInstance") && callarg("scope.setInstance", c, 3) == ext("(reflect.Value).Interface", "any", results[info.Returns[j].Index]))
 //@   at before return#15 : assert[C15] nil_result_stores_nothing: ncalls("scope.setInstance") == 0 && ncalls("scope.setAliasedInstance") == 0
 //@   at before return#16 : assert[C01,C02,C03,C10] single_output_stored_once: ncalls("scope.setInstance") == 0 && ncalls("scope.setAliasedInstance") == 1 && callarg("scope.setAliasedInstance", 0, 0) == s
 //@        && callarg("scope.setAliasedInstance", 0, 1) == descriptor && callarg("scope.setAliasedInstance", 0, 2) == instance && instance != nil
 //@   loop 1
-//@     invariant stored_so_far: ncalls("scope.setInstance") == idx && (forall i int :: 0 <= i && i < idx ==> callarg("scope.setInstance", i, 3) == registrations[i].Value)
+//@     invariant stored_so_far: ncalls("scope.setInstance") <= idx && (forall c int :: 0 <= c && c < ncalls("scope.setInstance") ==> (exists i int :: 0 <= i && i < idx && callarg("scope.setInstance", c, 3) == registrations[i].Value))
+//@     invariant only_registered_outputs_stored: forall c int :: 0 <= c && c < ncalls("scope.setInstance") ==> !outputSkipped(s.rootProvider, descriptor, callarg("scope.setInstance", c, 1, "*Descriptor"))
 //@     invariant own_scope: forall c int :: 0 <= c && c < ncalls("scope.setInstance") ==> callarg("scope.setInstance", c, 0) == s
 //@     invariant every_output_is_cached_under_its_registration_identity: forall c int :: 0 <= c && c < ncalls("scope.setInstance") ==> idOf(callarg("scope.setInstance", c, 1, "*Descriptor"), callarg("scope.setInstance", c, 2, "instanceKey"))
 //@   loop 2
 //@     invariant own_scope: forall c int :: 0 <= c && c < ncalls("scope.setInstance") ==> callarg("scope.setInstance", c, 0) == s
 //@     invariant every_output_is_cached_under_its_registration_identity: forall c int :: 0 <= c && c < ncalls("scope.setInstance") ==> idOf(callarg("scope.setInstance", c, 1, "*Descriptor"), callarg("scope.setInstance", c, 2, "instanceKey"))
-//@     invariant stored_so_far: forall j int :: 0 <= j && j < idx && !info.Returns[j].IsError ==>
+//@     invariant stored_so_far: forall j int :: 0 <= j && j < idx && !info.Returns[j].IsError && pure("Descriptor.outputForReturn", descriptor, info.Returns[j].Index) != nil && !outputSkipped(s.rootProvider, descriptor, pure("Descriptor.outputForReturn", descriptor, info.Returns[j].Index)) ==>
 //@        (exists c int :: 0 <= c && c < ncalls("scope.setInstance") && callarg("scope.setInstance", c, 3) == ext("(reflect.Value).Interface", "any", results[info.Returns[j].Index]))
+//@     invariant only_registered_outputs_stored: forall c int :: 0 <= c && c < ncalls("scope.setInstance") ==> !outputSkipped(s.rootProvider, descriptor, callarg("scope.setInstance", c, 1, "*Descriptor"))
 //
 // ---------------------------------------------------------------------------------------------
 // Entry points: a disposed scope / provider refuses work (C13), arguments are validated (C15).
